@@ -1078,6 +1078,7 @@ func emitPlan(quick bool) []emitCfg {
 
 // C18 — the wire format stays compatible with released peers.
 func C18(c *vf.Ctx) {
+	defer relaxGC()()
 	c.Assume = append(c.Assume,
 		"the released peer is storj.io/drpc v0.0.17: its drpcwire and drpcmetadata packages are vendored path-renamed under harness/oldwire (monkit instrumentation removed, otherwise verbatim)",
 		"frames within the old size limits: payloads up to 1 MiB-32 per frame (so that a frame with 10-byte id varints stays below the 1 MiB scanner token of v0.0.17), packets up to and just above 4 MiB; the current reader runs with its default MaximumBufferSize (4 MiB)",
